@@ -22,7 +22,9 @@ Record input := {
   i_branch : list (ddl * bool);
   i_cands : list (seed_key * list N);       (* what the real generator draws for the seeds the script needs *)
   i_schemas : list sschema;                 (* the stored schemas of the final root (and of the extra repository), as read through the doltdb API *)
-  i_fks : list (list sfk)                   (* the foreign key collections of those roots *)
+  i_fks : list (list sfk);                  (* the foreign key collections of those roots *)
+  (* same DDL statements, different commit placement: base (then committed); route x and route y from there; the fresh route from nothing *)
+  i_rc_base : list (ddl * bool); i_rc_x : list (ddl * bool); i_rc_y : list (ddl * bool); i_rc_fresh : list (ddl * bool)
 }.
 
 Record obs := {
@@ -33,7 +35,9 @@ Record obs := {
   o_flags : list bool;                      (* per table: SchemasAreEqual, TypeInfo.Equals for every column, same SHOW CREATE TABLE in A and B,
                                                SerializeSchema deterministic (twice / after the round trip / in A and B: same bytes; same schema hash in A, B and on b2) *)
   o_fks_back : list (option (list sfk));    (* DeserializeForeignKeys (SerializeForeignKeys c) for each collection; None = error *)
-  o_fkflags : list bool                     (* per collection: serialization deterministic (twice / after the round trip: same bytes) *)
+  o_fkflags : list bool;                    (* per collection: serialization deterministic (twice / after the round trip: same bytes) *)
+  o_rc_x : root; o_rc_y : root; o_rc_yrepo : root; o_rc_fresh : root;   (* final roots of the routes (y also in an independent repository) *)
+  o_rc_merge : N                            (* merge of branch x into branch y: 0 clean, 1 conflicts, 2 error *)
 }.
 Definition case := (input * obs)%type.
 
@@ -71,6 +75,12 @@ Fixpoint steps_safe (cands : list (seed_key * list N)) (s : st) (ds : list (ddl 
       else steps_safe cands s ds'
   end.
 
+Definition st0 : st := {| head := []; work := []; other := [] |}.
+Definition rc_base_state (i : input) : st :=
+  let s := snd (run_states (i_cands i) st0 (i_rc_base i)) in {| head := work s; work := work s; other := [] |}.
+Definition rc_route (i : input) (ds : list (ddl * bool)) : root := work (snd (run_states (i_cands i) (rc_base_state i) ds)).
+Definition rc_fresh (i : input) : root := work (snd (run_states (i_cands i) st0 (i_rc_fresh i))).
+
 Definition model_obs (i : input) : obs :=
   let s0 := {| head := []; work := []; other := [] |} in
   let '(l1, s1) := run_states (i_cands i) s0 (i_main i) in
@@ -80,7 +90,9 @@ Definition model_obs (i : input) : obs :=
      o_back := map roundtrip (i_schemas i);
      o_flags := map (fun _ => true) (i_schemas i);
      o_fks_back := map fk_roundtrip_m (i_fks i);
-     o_fkflags := map (fun _ => true) (i_fks i) |}.
+     o_fkflags := map (fun _ => true) (i_fks i);
+     o_rc_x := rc_route i (i_rc_x i); o_rc_y := rc_route i (i_rc_y i); o_rc_yrepo := rc_route i (i_rc_y i); o_rc_fresh := rc_fresh i;
+     o_rc_merge := 0 |}.
 
 Definition input_safe (i : input) : bool :=
   let s0 := {| head := []; work := []; other := [] |} in
@@ -108,7 +120,9 @@ Definition obs_eqb (a b : obs) : bool :=
   && list_eqb opt_schema_eqb (o_back a) (o_back b)
   && list_eqb Bool.eqb (o_flags a) (o_flags b)
   && list_eqb opt_fks_eqb (o_fks_back a) (o_fks_back b)
-  && list_eqb Bool.eqb (o_fkflags a) (o_fkflags b).
+  && list_eqb Bool.eqb (o_fkflags a) (o_fkflags b)
+  && root_same (o_rc_x a) (o_rc_x b) && root_same (o_rc_y a) (o_rc_y b) && root_same (o_rc_yrepo a) (o_rc_yrepo b)
+  && root_same (o_rc_fresh a) (o_rc_fresh b) && (o_rc_merge a =? o_rc_merge b).
 
 (* ---- the property on the implementation's observation ---- *)
 Definition final_root (o : obs) : root := last (o_states o) [].
@@ -128,7 +142,18 @@ Definition oracle_c (o : obs) : bool :=
   forallb (fun r => distinct (root_tags r)) (o_states o)
   && distinct (root_tags (o_b2 o)) && distinct (root_tags (o_envb o)) && distinct (root_tags (o_merged o)).
 
-Definition oracle (i : input) (o : obs) : bool := oracle_a i o && oracle_b o && oracle_c o.
+(* (d) the same statements with the commit placed differently (DROP + CREATE in one working set / a commit in between / a
+   repository that never had the table) assign the same tags column by column, and the two branches merge cleanly.
+   Not a theorem of the model: a new column's first candidate may equal the tag of a dropped column that only the route without
+   the commit still sees in HEAD (probability ~ 1/16384 per pair of columns); on such an input model and implementation agree
+   and the clause is false for both. *)
+Definition oracle_d (o : obs) : bool :=
+  root_same (o_rc_x o) (o_rc_y o) && root_same (o_rc_x o) (o_rc_yrepo o)
+  && forallb (fun t => opt_cols_eqb (Some (snd t)) (lookup (fst t) (o_rc_x o))) (o_rc_fresh o)
+  && (o_rc_merge o =? 0).
+
+Definition oracle_abc (i : input) (o : obs) : bool := oracle_a i o && oracle_b o && oracle_c o.
+Definition oracle (i : input) (o : obs) : bool := oracle_abc i o && oracle_d o.
 
 Definition check_case (c : case) : N :=
   (if obs_eqb (model_obs (fst c)) (snd c) then 0 else 1)
